@@ -226,6 +226,13 @@ func makeSource[T num, A arr[T, A]](k kit[T, A], layout int, shape []int, vals [
 		a := k.newC(cb.ptr, shape)
 		return fill(a)
 	}
+	if w != nil && w.Choose(10) >= 7 {
+		// a contiguous source over a backing slice that is longer than the array
+		pad := 1 + w.Choose(5)
+		for i := 0; i < pad; i++ {
+			tv = append(tv, T(77))
+		}
+	}
 	return k.fromSlice(tv, shape)
 }
 
